@@ -20,7 +20,15 @@
 //	volume_test.go      part (b), size class: histories in which ONE dictionary bucket receives 10^4..10^5
 //	                    new names per flush cycle (around the 32767-key flush block / 65535-key
 //	                    compaction block), same operations and oracles as history_test.go
-//	regression_test.go  plain reproductions of the defects found
+//	fault_test.go       part (b), fault class (TestFaultHistory): the state machine of history_test.go plus
+//	                    one failing table-file / manifest operation inside a metadata / index Flush, the
+//	                    flush job's reaction, retry flush, reopen / crash images in the fault window
+//	limits_test.go      part (b), limits class (TestLimitsHistory): the database limits as a generated
+//	                    dimension (disabled / small / default / above 256 / changed while the node runs)
+//	                    and metrics that are asked for more fields / tag keys / series than the limits
+//	                    and than 256; refusals are judged for consistency
+//	regression_test.go, limits_regression_test.go
+//	                    plain reproductions of the defects found
 package c09
 
 import (
